@@ -9,7 +9,18 @@ fuzz_target!(|data: &[u8]| {
     if let Ok(v) = NostrGroupDataExtension::verif_from_tls_bytes(data) {
         let bytes = v.verif_to_tls_bytes().expect("an accepted value must serialise");
         let again = NostrGroupDataExtension::verif_from_tls_bytes(&bytes).expect("own encoding must parse");
-        assert_eq!(v, again, "decode(encode(v)) != v");
+        // Relay URLs are compared by their text: `nostr::RelayUrl` equality looks at the inner
+        // `Url`, and two values that print the same can differ there (the url crate strips
+        // trailing control characters, which leaves a path ending in '/' that `RelayUrl` then
+        // prints without it). That is outside mdk's codec; everything else must be equal.
+        let texts = |e: &NostrGroupDataExtension| e.relays.iter().map(|r| r.to_string()).collect::<Vec<_>>();
+        assert_eq!(texts(&v), texts(&again), "decode(encode(v)) changed the relay list");
+        let (mut a, mut b) = (v.clone(), again.clone());
+        a.relays.clear();
+        b.relays.clear();
+        assert_eq!(a, b, "decode(encode(v)) != v");
+        // and the encoding itself is a fixed point
+        assert_eq!(bytes, again.verif_to_tls_bytes().expect("serialise"), "encode(decode(encode(v))) != encode(v)");
         // nothing ambiguous: no accepted input may carry bytes the value does not account for
         assert!(data.len() >= 34, "accepted fewer bytes than the fixed header");
         // an accepted encoding with optional image fields present must have had exact lengths
